@@ -639,7 +639,7 @@ LT_ALL = ['\n', '\r', '\r\n', u'\u2028', u'\u2029', '\n\n', ' \n  ', u'\u2028\n'
 LT_NO_LSPS = ['\n', '\r', '\r\n', '\n\n', ' \n  ', '\r\n\t']
 COMMENTS_INLINE = ['/*c*/', '/**/', '/* a * b / */', u'/*\u00e9*/', '/*//*/']
 COMMENTS_ML = ['/*c\nc*/', '/*\n*/', '/*\r\n * x\r\n */', u'/*a\u2028b*/', u'/*\u2029*/', '/*\r*/']
-COMMENTS_LINE = ['//c\n', '//\n', '// a /* b\n', u'//\u00e9\r\n', '//x\r']
+COMMENTS_LINE = ['//c\n', '//\n', '// a /* b\n', u'//\u00e9\r\n', '//x\r', u'//c\u2028', u'// d\u2029']
 
 _join_cache = {}
 
@@ -774,8 +774,8 @@ def render(draw, toks, layout, drop=None, seps_out=None):
                         sep = [c, ' ' + c + ' ', c + ' ', ' ' + c][draw(st.integers(0, 3))]
                     elif r < 93 and layout.comments and not nolt:
                         sep = COMMENTS_LINE[draw(st.integers(0, len(COMMENTS_LINE) - 1))]
-                        if not layout.lsps:
-                            pass
+                        if not layout.lsps and (u'\u2028' in sep or u'\u2029' in sep):
+                            sep = '//c\n'
                         sep = (' ' if draw(st.booleans()) else '') + sep
                     elif layout.comments and not nolt:
                         sep = COMMENTS_ML[draw(st.integers(0, len(COMMENTS_ML) - 1))]
